@@ -661,6 +661,19 @@ static int32 pkcs12import(psPool_t *pool, const unsigned char **buf,
         psFree(iv, pool);
         return PS_PARSE_FAIL;
     }
+    if ((tmplen % 8) != 0)
+    {
+        /* Both supported ciphers (3DES and RC2) have 8-byte blocks and
+           the decrypt functions process whole blocks only. */
+        psTraceCrypto("Ciphertext is not a multiple of the block size\n");
+        if (decryptKey)
+        {
+            memset_s(decryptKey, keyLen, 0x0, keyLen);
+            psFree(decryptKey, pool);
+        }
+        psFree(iv, pool);
+        return PS_PARSE_FAIL;
+    }
 
     /* Don't decrypt in-situ because we'll need to MAC this all later */
     if ((pt = psMalloc(pool, tmplen)) == NULL)
